@@ -442,6 +442,9 @@ pub struct Naive {
     pub steps: Vec<(usize, usize, f64, usize)>,
     /// smallest gap between best and second-best candidate, relative to scale
     pub margin: f64,
+    /// the same gaps relative to the LARGER OF THE TWO VALUES COMPARED (for inputs that mix magnitudes:
+    /// candidates of one magnitude are never blurred by the rounding of another magnitude's arithmetic)
+    pub rel_margin: f64,
 }
 
 /// Greedy O(n^3) Lance-Williams on a label table; SciPy labelling for sorted methods
@@ -463,6 +466,7 @@ pub fn naive_cluster(m: Method, n: usize, vals: &[f64]) -> Naive {
     let mut size = vec![1.0f64; total];
     let mut raw: Vec<(usize, usize, f64)> = vec![];
     let mut margin = f64::INFINITY;
+    let mut rel_margin = f64::INFINITY;
     for i in 0..n - 1 {
         let (mut best, mut bx, mut by) = (f64::INFINITY, 0, 0);
         let mut second = f64::INFINITY;
@@ -483,6 +487,7 @@ pub fn naive_cluster(m: Method, n: usize, vals: &[f64]) -> Naive {
             let g = unsq(m, second) - unsq(m, best);
             let g2 = if on_squares(m) { ((second - best) / (scale * scale)).min(g / scale) } else { g / scale };
             margin = margin.min(g2);
+            rel_margin = rel_margin.min((second - best) / second.abs().max(best.abs()).max(f64::MIN_POSITIVE));
         }
         let new = n + i;
         live.retain(|&x| x != bx && x != by);
@@ -503,6 +508,8 @@ pub fn naive_cluster(m: Method, n: usize, vals: &[f64]) -> Naive {
             let g = unsq(m, raw[w[1]].2) - unsq(m, raw[w[0]].2);
             let g2 = if on_squares(m) { ((raw[w[1]].2 - raw[w[0]].2) / (scale * scale)).min(g / scale) } else { g / scale };
             margin = margin.min(g2);
+            let (lo, hi) = (raw[w[0]].2, raw[w[1]].2);
+            rel_margin = rel_margin.min((hi - lo) / hi.abs().max(lo.abs()).max(f64::MIN_POSITIVE));
         }
     }
     // relabel: slot id -> current label, by an observation-set representative map
@@ -527,5 +534,5 @@ pub fn naive_cluster(m: Method, n: usize, vals: &[f64]) -> Naive {
         label_of_obs[nr] = n + k;
         steps.push((c1, c2, unsq(m, r.2), sz));
     }
-    Naive { steps, margin }
+    Naive { steps, margin, rel_margin }
 }
